@@ -151,6 +151,14 @@ func Byte(tag string) byte {
 	return byte(v)
 }
 
+// Byte2 draws a byte in [lo, hi].
+func Byte2(tag string, lo, hi byte) byte {
+	d := next(tag, "uint")
+	var v uint64
+	json.Unmarshal(d.Value, &v)
+	return byte(v)
+}
+
 func bytesOf(d drawRec) []byte {
 	var v []int
 	json.Unmarshal(d.Value, &v)
